@@ -1,7 +1,6 @@
 package props
 
 import (
-	"bytes"
 	"fmt"
 	"strings"
 	"testing"
@@ -141,7 +140,7 @@ func safeReadHTML(text string) (c store.Cursor, err error) {
 			err = &panicError{r}
 		}
 	}()
-	return xsel.ReadHtml(bytes.NewBufferString(text))
+	return xsel.ReadHtml(readerFor([]byte(text)))
 }
 
 func checkC17(c *c17Case) error {
